@@ -589,6 +589,33 @@ def build_cases(gen, rng, tier):
                         it = {"kind": "struct", "name": nm(0), "params": ["T"], "fields": fs}
                     it["generics"] = {"lts": ["'a"], "consts": [], "inline": {}, "where": []}
                     add("refparam-%s-%s" % ("enum" if as_enum else "struct", kind), [it], [A(0, [LT(rng.choice(["i32", "u8", "str"]))])])
+    # --- I. field types that are qualified paths: the type parameter ONLY in the trait's arguments (`<Heap as Storage<T>>::Of`),
+    #        ONLY in the associated type's own arguments (`<Heap as Family>::Of<T>`), ONLY in the self type
+    #        (`<Vec<T> as Plain>::Out`), `T::Assoc`, and a concrete control (`<Heap as Storage<i32>>::Of`); each needs its
+    #        `FieldTy: Debug` predicate or the derive_more twin does not compile while std's does
+    P = ["param", "T"]
+    qtys = [["qpath", "trait-arg", P], ["qpath", "gat-arg", P], ["qpath", "self-ty", P], ["assoc", "T"],
+            ["vec", ["qpath", "trait-arg", P]], ["qpath", "gat-arg", ["vec", P]]]
+    control = ["qpath", "trait-arg", LT("i32")]
+    for qi, qt in enumerate(qtys):
+        for kind in (("tuple", "named", "enum") if tier != "quick" else (("tuple", "named", "enum")[qi % 3], ("tuple", "named", "enum")[(qi + 1) % 3])):
+            tys = [qt] if qi % 2 == 0 else [qt, rng.choice([control, LT("u8"), P])]
+            fkind = "tuple" if kind == "enum" and qi % 2 else ("named" if kind == "enum" else kind)
+            fs = {"kind": fkind, "list": [{"name": G.ident("f%d" % i) if fkind == "named" else None, "ty": t, "attr": None}
+                                          for i, t in enumerate(tys)]}
+            if kind == "enum":
+                it = {"kind": "enum", "name": nm(0), "params": ["T"], "variants": [
+                    {"name": G.ident("V0"), "fields": {"kind": "unit", "list": []}}, {"name": G.ident("V1"), "fields": fs}]}
+            else:
+                it = {"kind": "struct", "name": nm(0), "params": ["T"], "fields": fs}
+            if qt == ["assoc", "T"]:
+                it["generics"] = {"lts": [], "consts": [], "inline": {"T": ["crate::HasAssoc"]}, "where": []}
+                arg = LT(rng.choice(["i32", "String"]))
+            else:
+                if qi % 3 == 0:
+                    it["generics"] = {"lts": [], "consts": [], "inline": {}, "where": ["T: Clone"]}
+                arg = rng.choice([LT("i32"), LT("str"), ["vec", LT("u8")]])
+            add("qpath-%s" % kind, [it], [A(0, [arg])])
     return cases
 
 
@@ -667,6 +694,11 @@ def extra_decision_items(gen, rng, n):
                 if rng.random() < 0.4:
                     f["ty"] = rng.choice([["vec", ["param", "T"]], ["opt", ["param", params[-1]]], ["tup", [["leaf", "i32"], ["param", "T"]]],
                                           ["box", ["param", "T"]], ["arr", ["param", params[-1]], 2]])
+            for f in it["fields"]["list"][len(params):]:
+                if rng.random() < 0.25:
+                    f["ty"] = rng.choice([["qpath", "trait-arg", ["param", "T"]], ["qpath", "gat-arg", ["param", params[-1]]],
+                                          ["qpath", "self-ty", ["param", "T"]], ["qpath", "trait-arg", ["leaf", "i32"]],
+                                          ["qpath", "gat-arg", ["vec", ["param", "T"]]], ["opt", ["qpath", "self-ty", ["leaf", "u8"]]]])
             gen.add_attrs(it["fields"], p_skip=rng.choice([0, 0.3]), p_fmt=rng.choice([0, 0.3]))
             bare_some(gen, rng, it["fields"])
             decorate_generics(rng, it, rng.random() < 0.3, rng.random() < 0.3, rng.random() < 0.4, rng.random() < 0.6)
@@ -715,7 +747,7 @@ def decision_tie(chk, inproc, cases, sites):
         for (name, fs) in item_units(it):
             exprs.append("generate_body %s %s" % (sites_coq(sites), G.expansion_coq(name, fs)))
     terms = common.coq_eval(["Verif.C06.Model"], exprs, batch=300, tag="c06d")
-    bexprs = [G.item_where_coq(it) for (_, _, case, it) in work]
+    bexprs = [G.item_where_coq(it, case) for (_, _, case, it) in work]
     bterms = common.coq_eval(["Verif.C06.Model"], bexprs, batch=300, tag="c06b")
     wi = 0
     bad_items = set()
@@ -894,13 +926,15 @@ def run(tier, seed, replay):
 
     # ---- the real macro: one generated crate
     name = "c06_rt"
-    for attempt in range(3):
-        src = G.main_rs([cases[ci] for ci in live], leaves)
-        d = common.make_crate(name, src)
-        rc, err, out = common.run_crate(d, name)
+
+    def attempt_build(cur, crate_name, last=False):
+        """build+run a crate holding the cases `cur`; on a compile error classify per case.  -> (ok, stdout, dropped cases)"""
+        src = G.main_rs([cases[ci] for ci in cur], leaves)
+        d = common.make_crate(crate_name, src)
+        rc, err, out = common.run_crate(d, crate_name)
         if rc == 0 and out is not None:
-            break
-        # a compile error kills the whole crate: find the case modules the error spans point into, drop them, retry
+            return True, out, {}
+        # a compile error kills the whole crate: find the case modules the error spans point into
         where = {}
         flavour, cid = None, None
         for ln, line in enumerate(src.splitlines(), 1):
@@ -919,12 +953,12 @@ def run(tier, seed, replay):
             if not m or int(m.group(1)) not in where:
                 continue
             fl, c = where[int(m.group(1))]
-            hit.setdefault(live[c], set()).add(fl)
+            hit.setdefault(cur[c], set()).add(fl)
             kind = ("lifetime" if "lifetime may not live long enough" in block else
                     "e0283" if "E0283" in block else
                     "e0277-debug" if "E0277" in block and "Debug" in block else "other")
-            kinds.setdefault(live[c], set()).add(kind)
-        if not hit or attempt == 2:
+            kinds.setdefault(cur[c], set()).add(kind)
+        if not hit or last:
             os.makedirs(os.path.join(common.BUILD, "c06"), exist_ok=True)
             keep = os.path.join(common.BUILD, "c06", "failed_main.rs")
             open(keep, "w").write(src)
@@ -945,6 +979,19 @@ def run(tier, seed, replay):
                 chk.violation(cls, rep, "only the derive_more twin of %s fails to compile (%s)" % (rep["items_rust"], ", ".join(sorted(kinds[ci]))))
             else:
                 chk.violation("generator-compile-error", rep, "generated case does not compile under std's derive either: %s" % rep["items_rust"], no_input=True)
+        return False, None, hit
+
+    # the cases of the known compile-time finding go through a small crate of their own first (fails fast in type
+    # checking), so that the big crate is normally built once; if they ever compile they stay in the big crate
+    pre = [ci for ci in live if any(has_ref_param_conflict(it) for it in cases[ci]["items"])]
+    if pre:
+        ok_, _, hit = attempt_build(pre, "c06_rt_pre")
+        common.cleanup_scratch("c06_rt_pre")
+        live = [ci for ci in live if ci not in hit]
+    for attempt in range(3):
+        ok_, out, hit = attempt_build(live, name, last=(attempt == 2))
+        if ok_:
+            break
         live = [ci for ci in live if ci not in hit]
     obs = {}
     ltab = {}
